@@ -19,12 +19,49 @@ import (
 
 	"github.com/criyle/go-sandbox/container"
 	"github.com/criyle/go-sandbox/pkg/mount"
+	"github.com/criyle/go-sandbox/pkg/seccomp"
+	"github.com/criyle/go-sandbox/pkg/seccomp/libseccomp"
+	"github.com/criyle/go-sandbox/ptracer"
 	"github.com/criyle/go-sandbox/runner"
 	"github.com/criyle/go-sandbox/runner/ptrace"
 	"github.com/criyle/go-sandbox/runner/unshare"
 )
 
 func init() { hx.Register("c17", c17Main) }
+
+// pathWatch allows everything and counts the paths it is shown that lie in another run's directory
+type pathWatch struct {
+	own, base  string
+	n, foreign int
+}
+
+func (h *pathWatch) see(p string) ptracer.TraceAction {
+	h.n++
+	if strings.HasPrefix(p, h.base+"/t") && !strings.HasPrefix(p, h.own+"/") && p != h.own {
+		h.foreign++
+	}
+	return ptracer.TraceAllow
+}
+func (h *pathWatch) CheckRead(p string) ptracer.TraceAction  { return h.see(p) }
+func (h *pathWatch) CheckWrite(p string) ptracer.TraceAction { return h.see(p) }
+func (h *pathWatch) CheckStat(p string) ptracer.TraceAction  { return h.see(p) }
+func (h *pathWatch) CheckSyscall(string) ptracer.TraceAction { return ptracer.TraceAllow }
+
+var (
+	pathFilter     seccomp.Filter
+	pathFilterOnce sync.Once
+)
+
+func tracePathFilter() seccomp.Filter {
+	pathFilterOnce.Do(func() {
+		f, err := (&libseccomp.Builder{Trace: []string{"open", "openat", "stat", "lstat", "access", "execve"}, Default: libseccomp.ActionAllow}).Build()
+		if err != nil {
+			panic(err)
+		}
+		pathFilter = f
+	})
+	return pathFilter
+}
 
 type c17Round struct {
 	ID   int      `json:"id"`
@@ -33,18 +70,20 @@ type c17Round struct {
 }
 
 type c17Run struct {
-	Round  int      `json:"round"`
-	Slot   int      `json:"slot"`
-	Kind   string   `json:"kind"`
-	Solo   bool     `json:"solo"`
-	Want   int      `json:"want"` // exit code the program was told to use
-	R      string   `json:"r"`
-	Status int      `json:"status"`
-	Code   int      `json:"code"`
-	Err    string   `json:"err"`
-	Fds    []string `json:"fds"`    // "fd:own" | "fd:null" | "fd:other:<ino>" (+":cx" if close-on-exec) as seen by the program
-	Marker string   `json:"marker"` // text the program wrote to its own file
-	Ms     int64    `json:"ms"`
+	Round   int      `json:"round"`
+	Slot    int      `json:"slot"`
+	Kind    string   `json:"kind"`
+	Solo    bool     `json:"solo"`
+	Want    int      `json:"want"` // exit code the program was told to use
+	R       string   `json:"r"`
+	Status  int      `json:"status"`
+	Code    int      `json:"code"`
+	Err     string   `json:"err"`
+	Fds     []string `json:"fds"`     // "fd:own" | "fd:null" | "fd:other:<ino>" (+":cx" if close-on-exec) as seen by the program
+	Marker  string   `json:"marker"`  // text the program wrote to its own file
+	Traps   int      `json:"traps"`   // ptracet: path traps presented to this run's handler
+	Foreign int      `json:"foreign"` // ptracet: of those, paths that belong to another run
+	Ms      int64    `json:"ms"`
 }
 
 // c17 <probe> <rounds> <out>
@@ -113,7 +152,7 @@ func c17Main(args []string) error {
 				var ownSt syscall.Stat_t
 				syscall.Fstat(int(own.Fd()), &ownSt)
 				marker := fmt.Sprintf("m%dx%d", rd.ID, i)
-				nonce := fmt.Sprintf("vqc17x%dx%dx%d", os.Getpid(), rd.ID, i)
+				nonce := fmt.Sprintf("vqc17x%dx%dx%dz", os.Getpid(), rd.ID, i)
 				prog := []string{"PROBE", nonce, "say:3:" + marker, "fdsfd:3", "sleep:15", fmt.Sprintf("exit:%d", want)}
 				files := append(nullFiles(), own.Fd())
 				ctx, cancel := context.WithCancel(context.Background())
@@ -129,6 +168,21 @@ func c17Main(args []string) error {
 				}
 				var o opResult
 				switch base {
+				case "ptracet":
+					// traced path syscalls: the handler of this run must only ever be shown this run's paths
+					dir := fmt.Sprintf("%s/t%dx%d", tmp, rd.ID, i)
+					os.MkdirAll(dir, 0755)
+					mine := dir + "/private"
+					prog = []string{probe, nonce, "say:3:" + marker, "fdsfd:3"}
+					for k := 0; k < 60; k++ {
+						prog = append(prog, "append:"+mine+":x")
+					}
+					prog = append(prog, fmt.Sprintf("exit:%d", want))
+					h := &pathWatch{own: dir, base: tmp}
+					rr := &ptrace.Runner{Args: prog, Env: []string{"PATH=/usr/bin:/bin"}, Files: files, Seccomp: tracePathFilter(),
+						Handler: h, Limit: runner.Limit{TimeLimit: 200 * time.Second, MemoryLimit: runner.Size(2 << 30)}}
+					o = withTimeout(func() opResult { return classify(rr.Run(ctx)) })
+					r.Traps, r.Foreign = h.n, h.foreign
 				case "ptrace":
 					prog[0] = probe
 					rr := &ptrace.Runner{Args: prog, Env: []string{"PATH=/usr/bin:/bin"}, Files: files, Seccomp: allowAllFilter(),
